@@ -310,12 +310,13 @@ def netlist_cases(draw, max_nodes):
                 names['inst%d' % k] = n
     # a sub-block clocked by a named clock driver of its own (the clock wire is an input of the design), next to
     # registers of the default clock
-    from .c19 import _inside
     subs = [gi for gi, g in enumerate(desc['groups']) if gi > 0 and
-            any(is_state(nd) and _inside(desc, nd['g'], gi) for nd in desc['nodes'])]
+            any(is_state(nd) and netgen.group_inside(desc, nd['g'], gi) for nd in desc['nodes'])]
     if subs and draw(st.integers(0, 2)) == 0:
         desc['inputs'].append({'w': 1})
         desc['groups'][draw(st.sampled_from(subs))]['clk'] = {'name': draw(st.sampled_from(['clk_slow', 'clk2'])), 'wire': 'i%d' % (len(desc['inputs']) - 1)}
+    if mode == 'plain' and draw(st.booleans()):
+        desc['scoped_wire_names'] = True      # every block numbers its wires from 0: inner and outer wires share names
     case = {'kind': 'netlist', 'desc': desc, 'names': names}
     if draw(st.integers(0, 3)) == 0:
         rn = []
